@@ -343,6 +343,17 @@ def fault_cases():
                     ops += ["feed 1 %s - %s %s" % (strm, cap, ne), "feed 1 %s - - %s" % (strm, ne),
                             "eof 1 %s %s %s" % (strm, cap, ne), "drain 1 %s %s %s" % (strm, dcap, ne), "flush 0", "flush 1"]
                     out.append(explicit(T, True, False, {(1, strm): chunks}, ops, ["read-faults", "cap=" + cap, "eintr=" + ne]))
+    # the read FAILS (EIO): one diagnostic, the descriptor is closed, what was buffered is flushed at the end, the other
+    # stream goes on (not judged by the oracle: the stream was cut short by the error)
+    for pre, strm in ((b"", "o"), (b"whole\npart", "o"), (b"part", "e"), (b"l1\nl2\n", "e")):
+        other = "e" if strm == "o" else "o"
+        ops = (["feed 1 %s %s" % (strm, hx(pre))] if pre else []) + \
+              ["feed 1 %s %s E" % (strm, hx(b"never read\n")), "feed 1 %s %s" % (other, hx(b"other\nstream")),
+               "eof 1 %s" % other, "drain 1 %s" % other, "flush 0", "flush 1"]
+        c = explicit(T, True, False, {(1, strm): [pre, b"never read\n"], (1, other): [b"other\nstream"]}, ops,
+                     ["read-faults", "read-error"])
+        c.complete = False
+        out.append(c)
     # EOF seen by a call whose read is interrupted first; EOF on a descriptor that never carried a byte
     for ne in ("1", "2", "5"):
         out.append(explicit(T, True, False, {(0, "o"): [b"line\nrest"], (0, "e"): []},
